@@ -113,7 +113,10 @@ namespace TrRouting
             {
               inVehicleDistance += journeyStepTrip.path.segmentsDistanceMeters[seqI];
             }
-            totalDistance += inVehicleDistance;
+            if (totalDistance != -1) // an earlier leg without distances made the total unknown: it stays unknown
+            {
+              totalDistance += inVehicleDistance;
+            }
             if (Mode::TRANSFERABLE == journeyStepTrip.line.mode.shortname)
             {
               totalWalkingDistance     += inVehicleDistance;
@@ -123,7 +126,10 @@ namespace TrRouting
             }
             else
             {
-              totalInVehicleDistance += inVehicleDistance;
+              if (totalInVehicleDistance != -1)
+              {
+                totalInVehicleDistance += inVehicleDistance;
+              }
             }
           }
           else
